@@ -40,6 +40,14 @@ CHECKS = {
         note="Behaviour of sqlite when killed inside commit() and OS-level durability are library/OS behaviour and are not decided. tables/R04.1.json, R04.2.json hold the tabled exceptions.",
         design="DESIGN.md §4 C04",
     ),
+    "C06": dict(
+        rules="R06.1-R06.3, R05.3",
+        what="per-Op agreement of sources()/set_sources()/stolen() and PatchVisitor; borrow flag honoured by code generation; who may create IncRef/DecRef and which visit methods the post-refcount passes override; pass order of compile_scc_to_ir",
+        quant="function IR of all compiled programs, on every path",
+        technique="sibling cross-check of the three declarations of each Op's operand set; who-may-create rule; CFG ordering of the pass pipeline",
+        note="Reference-count balance of generated IR on every path needs the compiler to run on programs (translation validation by execution) and is not decided; the spill pass's balance argument is liveness-based and not decided.",
+        design="DESIGN.md §4 C06",
+    ),
     "C07": dict(
         rules="R07.1-R07.4",
         what="commit-before-reply in the worker for both phases; readiness gating by not_ready_count and interface-only done marking in the coordinator; agreement of the step sets of the sequential and the two-phase path; commit before the first broadcast",
